@@ -476,7 +476,7 @@ Proof.
   - intros inl inr st r _ IHst _ IHr fuel acc. cbn [fold_left]. rewrite IHr. exact (IHst fuel acc).
 Qed.
 
-Lemma collect_define f g ps body acc : collect_stmt (S f) (SDefineRoutine g ps body) acc = (fst acc ++ [(g, mkRdef ps body)], snd acc).
+Lemma collect_define f g ps body acc : fst (collect_stmt (S f) (SDefineRoutine g ps body) acc) = fst acc ++ [(g, mkRdef ps body)].
 Proof. reflexivity. Qed.
 
 Lemma collect_defs rt mt p f : Forall (top_stmt_ok rt mt) p -> forall acc,
@@ -484,7 +484,7 @@ Lemma collect_defs rt mt p f : Forall (top_stmt_ok rt mt) p -> forall acc,
 Proof.
   induction 1 as [|st r Hst _ IH]; intros acc; [cbn [fold_left defs_of flat_map]; rewrite app_nil_r; reflexivity|].
   cbn [fold_left]. rewrite IH. destruct (is_def st) eqn:E.
-  - destruct st; try discriminate. rewrite collect_define. cbn [fst]. unfold defs_of. cbn [flat_map]. rewrite <- app_assoc. reflexivity.
+  - destruct st; try discriminate. rewrite collect_define. unfold defs_of. cbn [flat_map]. rewrite <- app_assoc. reflexivity.
   - rewrite (proj1 (collect_simpleB rt mt) false false st (top_nondef rt mt st E Hst) (S f) acc).
     assert (Hd : defs_of (st :: r) = defs_of r) by (unfold defs_of; cbn [flat_map]; destruct st; try discriminate; reflexivity).
     rewrite Hd. reflexivity.
